@@ -195,4 +195,99 @@ func crosstalk(c *rig.Ctx) {
 		c.Count("noise_default_cases", 1)
 		c.Exact(1)
 	})
+
+	retune(c)
+}
+
+// retune: the frequency registers are rewritten while the channel plays, without a new trigger
+// (low byte alone, high bits alone, both). After at most one step of the old period the
+// waveform must step at the new period.
+func retune(c *rig.Ctx) {
+	c.Require("retune_cases")
+	steps := c.N(16, 64)
+	c.Part("retune", c.N(180, 2400), func(i int64, r *rig.Rng) {
+		ch := int(i % 3)
+		how := int(i/3) % 3
+		m := newMachine()
+		for k := 0; k < r.Intn(97); k++ {
+			m.Audio.EndMachineCycle()
+		}
+		f0 := 1024 + r.Intn(1024)
+		if r.Chance(1, 4) {
+			f0 = r.Intn(2048)
+		}
+		base := []uint16{0xff13, 0xff18, 0xff1d}[ch] // NRx3; NRx4 follows
+		switch ch {
+		case 0:
+			m.Mem.Write(0xff10, 0x00)
+			m.Mem.Write(0xff12, 0xf0)
+		case 1:
+			m.Mem.Write(0xff17, 0xf0)
+		case 2:
+			m.Mem.Write(0xff1a, 0x80)
+			m.Mem.Write(0xff1c, 0x20)
+		}
+		m.Mem.Write(base, uint8(f0))
+		m.Mem.Write(base+1, 0x80|uint8(f0>>8)&7)
+		mult := int64(4)
+		if ch == 2 {
+			mult = 2
+		}
+		oldP := mult * int64(2048-f0)
+		for k := int64(0); k < oldP/4*int64(1+r.Intn(5))+int64(r.Intn(int(oldP/4)+1)); k++ {
+			m.Audio.EndMachineCycle()
+		}
+		f1 := f0
+		switch how {
+		case 0: // low byte alone
+			f1 = f0&0x700 | r.Intn(256)
+			m.Mem.Write(base, uint8(f1))
+		case 1: // high bits alone, no trigger
+			f1 = f0&0xff | r.Intn(8)<<8
+			m.Mem.Write(base+1, uint8(f1>>8)&7)
+		case 2:
+			f1 = r.Intn(2048)
+			m.Mem.Write(base, uint8(f1))
+			m.Mem.Write(base+1, uint8(f1>>8)&7)
+		}
+		p := mult * int64(2048-f1)
+		pos := func() int {
+			w := m.Audio.XWaveState()
+			return []int{int(w.Duty1), int(w.Duty2), int(w.WavePos)}[ch]
+		}
+		mod := []int{7, 7, 31}[ch]
+		prev := pos()
+		// the step in progress still has the old length
+		for g := int64(0); g < oldP/4+2; g++ {
+			m.Audio.EndMachineCycle()
+			if cur := pos(); cur != prev {
+				prev = cur
+				break
+			}
+		}
+		st := &stepper{p: p}
+		limit := (steps+3)*p/4 + 8
+		for n := int64(1); n <= limit && st.k < steps; n++ {
+			m.Audio.EndMachineCycle()
+			cur := pos()
+			d := (cur - prev) & mod
+			prev = cur
+			if d > 0 {
+				c.Count("steps_observed", int64(d))
+				if !st.observe(n, d) {
+					c.Violate(fmt.Sprintf("retune-ch%d-step-period", ch+1), fmt.Sprintf("channel %d retuned from f=%d to f=%d without a trigger (%s): step %d after the change happened in machine cycle %d, inconsistent with a step every %d clocks", ch+1, f0, f1, []string{"low byte", "high bits", "both"}[how], st.k-1, n, p), nil)
+					return
+				}
+			} else if st.overdue(n) {
+				c.Violate(fmt.Sprintf("retune-ch%d-step-period", ch+1), fmt.Sprintf("channel %d retuned from f=%d to f=%d without a trigger (%s): step %d had not happened by machine cycle %d after the change (a step every %d clocks)", ch+1, f0, f1, []string{"low byte", "high bits", "both"}[how], st.k, n, p), nil)
+				return
+			}
+		}
+		if st.k < 3 {
+			c.Violate(fmt.Sprintf("retune-ch%d-step-period", ch+1), fmt.Sprintf("channel %d retuned from f=%d to f=%d without a trigger: only %d steps in %d machine cycles (a step every %d clocks)", ch+1, f0, f1, st.k, limit, p), nil)
+			return
+		}
+		c.Count("retune_cases", 1)
+		c.Case(rig.Hash(uint64(i), uint64(f0), uint64(f1)))
+	})
 }
